@@ -6,7 +6,8 @@
 package standard
 
 //@ type Service
-//@   guarded_by subscriptionInfosMutex: subscriptionInfos
+//@   // (the per-epoch maps are built by the subscriber and stored whole; afterwards they are only read, and removed whole)
+//@   guarded_by subscriptionInfosMutex: subscriptionInfos (entries replaced)
 //@   guarded_by pendingAttestationsMutex: pendingAttestations
 //@   // the subscription information stored for an epoch holds non-nil entries with a duty (what the beacon committee
 //@   // subscriber returns, see its Subscribe contract); assumed of every state in which a method is entered
@@ -257,6 +258,8 @@ package standard
 //@   ensures started(refreshProposerDutiesForEpoch) == 1 && started(refreshAttesterDutiesForEpoch) == 1
 //@   ensures nowEpoch() % s.epochsPerSyncCommitteePeriod == 0 ==> started(refreshSyncCommitteeDutiesForEpochPeriod) == 1
 //@
+//@ spec func cancelOutcome(name string) error
+//@ spec func nowSlot() phase0.Slot
 //@ func (*Service).refreshAttesterDutiesForEpoch
 //@   requires nolocks() && epoch <= 9223372036854775807
 //@   // a withdrawn job's slot is no longer pending, before anything is set up again
@@ -265,3 +268,10 @@ package standard
 //@     invariant forall sl phase0.Slot {in(cancelledJobs, sl)} :: in(cancelledJobs, sl) ==> !in(s.pendingAttestations, sl)
 //@     invariant fresh(cancelledJobs) && s.pendingAttestations != nil
 //@   at call go#1: assert forall sl phase0.Slot :: in(cancelledJobs, sl) ==> !in(s.pendingAttestations, sl)
+//@   // C03: no slot is attested for twice - the current slot is only set up again when its job was actually withdrawn
+//@   // (cancelOutcome(name): what the scheduler answered to the cancellation of the job of that name)
+//@   assumes call CancelJob#1 (err): err == cancelOutcome(arg1)
+//@   assumes call CurrentSlot (cs): cs == nowSlot()
+//@   loop 1
+//@     invariant forall sl phase0.Slot {in(cancelledJobs, sl)} :: in(cancelledJobs, sl) && cancelledJobs[sl] ==> cancelOutcome(sprintf("Attestations for slot %d", sl)) == nil
+//@   at call go#1: assert !arg4 ==> cancelOutcome(sprintf("Attestations for slot %d", nowSlot())) == nil
